@@ -16,9 +16,10 @@ from . import common
 
 
 def engine_model(ctx, cov):
-    cfgs = ["Engine_small.cfg"] if ctx.tier == "quick" else ["Engine_small.cfg", "Engine_fifo.cfg", "Engine_big.cfg"]
-    ecov, diffs, H = enginemodel.replay(ctx, cfgs[1:], "Engine_export.cfg" if ctx.tier == "quick" else "Engine_export_big.cfg",
-                                        timeout=ctx.pick(1200, 7200))
+    fams = ["small", "cyc", "cycneg", "negloop", "nested"] if ctx.tier == "quick" else ["small", "cyc", "cycneg", "negloop", "nested", "fam3", "big"]
+    ecov, diffs, H = enginemodel.replay(ctx, ["Engine_%s.cfg" % f for f in fams], ["Engine_%s_export.cfg" % f for f in fams],
+                                        expect_fail=["Engine_prefix_tablehit.cfg"] + ([] if ctx.tier == "quick" else ["Engine_prefix_falseresult.cfg"]),
+                                        timeout=ctx.pick(1800, 9000))
     cov.update(ecov)
     cov["traces_validated_against_impl"] = ecov["spec_behaviours_replayed_on_impl"]
     if diffs:
@@ -27,8 +28,9 @@ def engine_model(ctx, cov):
             if i < 3:
                 print("DRIFT property=C03 Engine.tla and StackBasedEngine disagree on\n%squeries %s schedule %s: %s" % (
                     enginemodel.text_of(h["prog"]), h["queries"], h["sched"], d))
-            if o.get("crash"):
-                ctx.violation({"clause": "crash", "error": o.get("error", ""), "site": o.get("site", ""), "level": "engine-model"},
+            if o.get("crash") and not (o.get("error") == "NegativeCycle" and h.get("err") == "NegativeCycle"):
+                ctx.violation({"clause": "crash" if o.get("error") != "NegativeCycle" else "negative-cycle-on-stratified",
+                               "error": o.get("error", ""), "site": o.get("site", ""), "level": "engine-model"},
                               "%squeries %s schedule %s: %s" % (enginemodel.text_of(h["prog"]), h["queries"], h["sched"], d),
                               {"engine_case": {"prog": h["prog"], "queries": h["queries"], "sched": h["sched"]}})
                 continue
